@@ -44,6 +44,20 @@ def checkpicosvg (allowText dropUnsupported : Bool) : DocM (List Violation) := d
     setRoot r
   pure viol
 
+/-- groups left underfull by pruning are flattened: reversed depth-first, `_try_remove_group` -/
+def flattenGroups : DocM Unit := do
+  let root ← getRoot
+  let ctxs ← liftE (depthFirst root)
+  for c in ctxs.reverse do
+    if isGroupTag c.node.tag then
+      let cur ← getRoot
+      match Node.findUid cur c.node.uid with
+      | some g =>
+        if g.uid != cur.uid then
+          let (repl, _) ← liftE (Groups.tryRemove g true)
+          setRoot (Node.replaceUid cur g.uid repl)
+      | none => pure ()
+
 /-- `topicosvg(ndigits, inplace=True, allow_text, drop_unsupported)`; ValueError when the gate
     reports violations -/
 def topicosvg (ndigits : Int) (allowText dropUnsupported noneGood : Bool) : DocM Unit := do
@@ -64,6 +78,7 @@ def topicosvg (ndigits : Int) (allowText dropUnsupported noneGood : Bool) : DocM
   roundFloats ndigits
   removeEmptySubpaths
   removeUnpaintedShapes
+  flattenGroups
   let viol ← checkpicosvg allowText dropUnsupported
   if !viol.isEmpty then fail .valueError
 
